@@ -128,7 +128,7 @@ class Driver:
             kw.setdefault("body", snap(args[0]))
         self.notes.append(kw)
         st.trace.append(("note", len(self.notes) - 1))
-        return [(Opaque("note"), st)]
+        return [(Opaque("note", str(len(self.notes) - 1)), st)]
 
     # ---------------------------------------------------------------- walking
     def new_listener(self, st: State, tree0: Any) -> Ref:
